@@ -95,7 +95,7 @@ def run_shard(spec, rec):
             if rng.random() < 0.5:
                 con.update(test="betting_mart", estim=None, bet="agrapa", test_kwargs={"c_grapa_0": 0.75, "c_grapa_grow": 1})
             else:
-                con.update(test="alpha_mart", estim="shrink_trunc", bet=None, test_kwargs={"d": 10, "f": rng.choice((0.25, 1.0)), "c": 0.125})
+                con.update(test="alpha_mart", estim="shrink_trunc", bet=None, test_kwargs={"d": 10, "f": rng.choice((0.25, 1.0)), "c": 0.125, "eta": rng.choice((0.5625, 0.625, 0.75))})  # eta from a reported margin (the default, u(1-eps), makes the first estimates insensitive to f)
             es["_fine"] = rng.randint(6, 12)
         es["_rseed"] = rng.randrange(10 ** 9)
         es["_dry_run"] = rng.random() < 0.3
